@@ -241,6 +241,17 @@ func (c *Ctx) pkgReach(roots ...*ssa.Function) map[*ssa.Function]bool {
 					w = append(w, g)
 				}
 			}
+			// plain function values (closures without captures passed as arguments)
+			for _, op := range i.Operands(nil) {
+				if g, ok := (*op).(*ssa.Function); ok && g.Blocks != nil {
+					if g.Pkg == c.SPkg || g.Parent() != nil {
+						if _, isCallee := i.(ssa.CallInstruction); isCallee && callCommonOf(i).Value == ssa.Value(g) {
+							continue
+						}
+						w = append(w, g)
+					}
+				}
+			}
 		})
 	}
 	return seen
